@@ -729,3 +729,116 @@ def double_lock_scan(F, R, rule, path_pat, direct_only=False):
                     if ty3 == gty:
                         R.bad(rule, "%s:relock-in-callee:%s" % (fkey(b), short(tgt.path)), "%s calls %s, which locks %s, while holding a guard of the same lock taken at line %d" % (short(b.path), short(tgt.path), short(gty), c.line), where(x))
     return n
+
+
+def _same_value(body, o1, o2):
+    c1, c2 = op_const(o1), op_const(o2)
+    if c1 is not None or c2 is not None:
+        return c1 is not None and c2 is not None and c1.get("int") == c2.get("int") and "int" in c1
+    p1, p2 = op_place(o1), op_place(o2)
+    if p1 is None or p2 is None:
+        return False
+    if p1.get("p") or p2.get("p"):
+        return p1 == p2
+    return bool(flow._local_copies_back(body, p1["l"], 6) & flow._local_copies_back(body, p2["l"], 6))
+
+
+def sub_is_guarded(body, bb, rv):
+    """`a - b` in block bb is safe when bb is control-dependent on a comparison establishing a >= b (any of the four
+    spellings: a >= b, a > b taken; a < b, a <= b not taken is NOT enough for <=: !(a <= b) gives a > b which is fine)"""
+    a, b = rv["a"], rv["b"]
+    for cmp in controlling_comparisons(body, bb):
+        op = cmp["op"] if cmp["taken"] else _NEG[cmp["op"]]
+        if _same_value(body, cmp["a"], a) and _same_value(body, cmp["b"], b) and op in ("Ge", "Gt"):
+            return True
+        if _same_value(body, cmp["a"], b) and _same_value(body, cmp["b"], a) and op in ("Le", "Lt"):
+            return True
+    return False
+
+
+def array_elements_all_processed(F, R, rule):
+    """the client's array arm looks at every element: inside the loop over the elements of a `[..]` message the only way
+    out of the function is an error; a successful return from inside the loop would skip the remaining elements (their
+    responses / close notifications are never routed) and the batch completion that follows the loop."""
+    b = F.one(r"^jsonrpsee_core::client::async_client::handle_backend_messages::handle_recv_message$")
+    R.fn(b)
+    loops = [c for c in b.calls if c.callee == "std::iter::Iterator::next" and "RawValue" in ((c.self_ty or "") + " ".join(c.ga or []))]
+    if not loops:
+        loops = [c for c in b.calls if c.callee == "std::iter::Iterator::next" and c.dest and "RawValue" in b.locals[c.dest["l"]]["ty"]]
+    if len(loops) != 1:
+        R.anchor_lost(rule, "the loop over the elements of an array message in handle_recv_message (found %d)" % len(loops))
+        return
+    nx = loops[0]
+    some_t = None
+    for sb, arms, other in flow.switch_on(b, nx.dest["l"]):
+        some_t = arms.get("1") or (other if "0" in arms else None)
+    if some_t is None:
+        R.anchor_lost(rule, "the Some arm of the element loop in handle_recv_message")
+        return
+    errs = set()
+    for bi, blk in enumerate(b.blocks):
+        if bi not in b.reachable:
+            continue
+        for st in blk["st"]:
+            if st["s"] == "assign" and st["pl"]["l"] == 0 and not st["pl"].get("p") and st["rv"]["k"] == "agg" and st["rv"].get("variant") == "Err":
+                errs.add(bi)
+        t = blk["term"]
+        if t and t["t"] == "call" and t.get("dest") and t["dest"]["l"] == 0 and re.search(r"from_residual$", (op_const(t["f"]) or {}).get("fn", "")):
+            errs.add(bi)
+    ok = flow.all_paths_pass(b, some_t, errs | {nx.bb}) and some_t not in b.exits
+    R.check(ok, rule, "array:every-element-processed", "inside the element loop the function is left only with an error", "handle_recv_message can return successfully from inside the loop over an array's elements: the remaining elements (responses, close notifications) are never routed and the batch that shares the array is never completed - its pending entry stays forever and the caller times out", where(nx))
+
+
+def into_owned_fieldwise(ctx, rule, path_pat, floor):
+    """`into_owned` changes lifetimes, not values: the struct it returns takes every field from the same field of `self`
+    (through that field's own into_owned / clone / Option::map / Cow::Owned). A rebuild through a constructor, or a
+    special case that substitutes a constant, silently normalises the value - an absent `jsonrpc` becomes "2.0", params
+    `{}` become `[]` - so what a handler or a middleware sees is no longer what was received."""
+    F, R = ctx.F, ctx.R
+    tr = ctx.tracer(follow_callers=False, follow_fields=False, inline_calls=False, extra_transparent=[(r"::into_owned$", 0), (r"Option::<.*>::map$", 0)])
+    n = 0
+    for b in F.real_bodies():
+        if is_test_body(b) or not re.search(path_pat, b.path) or b.kind != "AssocFn":
+            continue
+        ret = b.locals[0]["ty"].split("<")[0]
+        adt = F.adt(ret)
+        if adt is None or adt["kind"] != "Struct":
+            continue
+        R.fn(b)
+        n += 1
+        aggs = [(bi, st) for bi, blk in enumerate(b.blocks) if bi in b.reachable and not blk.get("cleanup") for st in blk["st"]
+                if st["s"] == "assign" and st["rv"]["k"] == "agg" and st["rv"].get("adt") == ret]
+        if not aggs:
+            R.bad(rule, "%s:fieldwise" % fkey(b), "%s does not build its result field by field from `self` (it goes through %s): members that the constructor fixes (e.g. jsonrpc: Some(\"2.0\")) no longer reflect the received message" % (short(b.path), sorted({short(c.name()) for c in b.calls if "new" in (c.name() or "")})[:3]), "%s:%d" % (b.file, b.lo))
+            continue
+        for bi, st in aggs:
+            for fname, op in zip(st["rv"]["fields"], st["rv"]["ops"]):
+                lv = []
+                work = [(b, op, 0)]
+                while work:
+                    wb, wop, dpt = work.pop()
+                    for l in tr.origins(wb, wop):
+                        if l.kind == "agg" and dpt < 6 and l.detail["ops"] and (l.detail.get("adt", "").endswith("borrow::Cow") or l.detail.get("adt", "").startswith("std::option::Option")):
+                            work.append((F.bodies[l.where], l.detail["ops"][0], dpt + 1))
+                        elif l.kind == "agg" and l.detail.get("variant") == "None" and not l.detail["ops"]:
+                            # `None => None` arm of a match on self.<field>: value-preserving
+                            continue
+                        else:
+                            lv.append(l)
+                ok = bool(lv) and all(l.kind == "field" and l.detail["idx"] == 1 and l.detail["fields"][0][1] == fname for l in lv)
+                if not lv:
+                    # only `None` was found: fine exactly on the None arm of a match on self.<field>
+                    for sb, blk2 in enumerate(b.blocks):
+                        t2 = blk2["term"]
+                        if not t2 or t2["t"] != "switch" or sb not in b.reachable:
+                            continue
+                        p2 = op_place(t2["discr"])
+                        if p2 is None:
+                            continue
+                        for b3, s3, d3, src3 in b.defs.get(p2["l"], []):
+                            if src3[0] == "rv" and src3[1]["k"] == "discr" and src3[1]["pl"]["l"] == 1 and any(isinstance(e, dict) and e.get("n") == fname for e in src3[1]["pl"].get("p", [])):
+                                arms2 = {v: tb for v, tb in t2["arms"]}
+                                if "0" in arms2 and b.dominates(arms2["0"], bi):
+                                    ok = True
+                R.check(ok, rule, "%s:%s%s" % (fkey(b), fname, "" if len(aggs) == 1 else "@arm%d" % [x[0] for x in aggs].index(bi)), "%s.%s comes from self.%s" % (ret.split("::")[-1], fname, fname), "%s fills `%s` from %s instead of (only) self.%s: the owned value differs from the borrowed one" % (short(b.path), fname, sorted({leaf_str(l)[:70] for l in lv if not (l.kind == "field" and l.detail["idx"] == 1)}), fname), "%s:%d" % (b.file, st["sp"][0]))
+    R.floor(rule, n, floor, "struct-returning into_owned functions")
